@@ -19,6 +19,7 @@ RULE = (
     "name, dims, group path; every leaf under /metadata must be predicted (or be a frozen "
     "constant of the reference structure) and equal. Non-trivial: always (all fields set); "
     "distinct = hash of the case (structure + value seed)."
+    " Float texts use every spelling [+-]?(d+[.d*]|.d+)([eE][+-]?d+)?; decimal-second texts carry 3..6 fraction digits; text fields are blank- or NUL-padded. Stage 'in-place-pairs': two leaders at the same root, one after the other, both judged."
 )
 ASSUMPTIONS = [
     "layout/*.json + layout/exposure_*.json (frozen, hand audited) stand in for the JAXA format document",
